@@ -94,7 +94,17 @@ def record_all(tier, seed):
     r = call(C.all)
     rec('all', res=['EXC'] if isinstance(r, Exception) else names(r))
 
-    forms = [lambda s: set(s), lambda s: list(s), lambda s: tuple(s)]
+    kept = {}
+
+    def keep(kind):
+        # a caller keeps its sets / lists: the SAME object is handed in whenever the same selection recurs in the same form
+        def make(xs):
+            key = (kind.__name__, tuple(x.name for x in xs))
+            if key not in kept:
+                kept[key] = kind(xs)
+            return kept[key]
+        return make
+    forms = [keep(set), keep(list), lambda s: tuple(s)]
 
     def do_valid(inc, exc, form_i=0, form_e=0, match_cats=()):
         """inc: None or iterable of categories."""
@@ -127,6 +137,16 @@ def record_all(tier, seed):
                     continue
                 k += 1
                 do_valid(inc, exc, form_i=k % 3, form_e=(k // 3) % 3, match_cats=rnd.sample(cats, 1))
+    # structured family: an inner category included, ALL (or all but one) of its children excluded, plus ancestors / descendants mixed in
+    inner = [c for c in cats if call(C.children, c) and not isinstance(call(C.children, c), Exception)]
+    for x in inner:
+        ch = sorted(C.children(x), key=lambda c: c.name)
+        gch = sorted({g for c in ch for g in C.children(c)}, key=lambda c: c.name)
+        for inc in ([x], ch[:1], [x] + ch[:1], None):
+            for exc in (ch, ch[1:], ch[:-1], gch, ch + gch[:2], gch + [x]):
+                if exc:
+                    k += 1
+                    do_valid(inc, exc, form_i=k % 3, form_e=(k // 3) % 3, match_cats=cats)
     # random larger sets (after every collection returned so far was modified by the caller)
     spoil_returned()
     for n_ in range(400 if tier == 'quick' else 4000):
